@@ -1,8 +1,14 @@
 package checks
 
 import (
+	"bytes"
+	"encoding/asn1"
 	"fmt"
 	"strings"
+
+	"github.com/wokdav/gopki/generator"
+	"github.com/wokdav/gopki/generator/cert"
+	"github.com/wokdav/gopki/generator/config"
 
 	"verif/mc/drive"
 	"verif/mc/engine"
@@ -19,6 +25,8 @@ type c05Case struct {
 	KeyAlg    string `json:"keyAlg"`              // "" = omitted
 	SigAlg    string `json:"sigAlg"`              // "" = omitted
 	Gen       bool   `json:"gen"`                 // gopki generates the entity's key (else fixture key imported)
+	// role "resign": one certificate body (generator.BuildCertBody) is signed with SigAlg and then again with Second
+	Second string `json:"second,omitempty"`
 }
 
 func c05Family(alg string) string {
@@ -29,6 +37,16 @@ func c05Family(alg string) string {
 }
 
 func c05Enumerate(tier string, yield func(any)) {
+	// one body signed twice through the generator API: every ordered pair of signature algorithms on an EC and an RSA key
+	for _, k := range []string{"P-256", "RSA-2048", "brainpoolP384r1"} {
+		for _, a := range refx509.SigAlgNames {
+			for _, b := range refx509.SigAlgNames {
+				if refx509.SigFamily(refx509.SigAlgByName[b]) == c05Family(k) {
+					yield(&c05Case{Role: "resign", KeyAlg: k, SigAlg: a, Second: b})
+				}
+			}
+		}
+	}
 	keyAlgs := append([]string{""}, refx509.KeyAlgNames...)
 	sigAlgs := append([]string{""}, refx509.SigAlgNames...)
 	genOK := func(role, k, s, issuer string) bool {
@@ -57,8 +75,69 @@ func c05Enumerate(tier string, yield func(any)) {
 	}
 }
 
+// c05Resign: the same certificate body signed twice through the generator API (a re-issue under another
+// algorithm, or a retry after an attempt with an algorithm that does not fit the key). Every certificate that
+// comes out names the algorithm it was asked for, inside and outside, and verifies.
+func c05Resign(x *engine.Ctx, c *c05Case) {
+	pf, err := cert.ReadPem(FixtureKeyPEM(FixtureForAlg(c.KeyAlg, 0)))
+	if err != nil || pf.PrivateKey == nil {
+		x.Cap(fmt.Sprintf("fixture key unreadable: %v", err))
+		return
+	}
+	subj, _ := config.ParseRDNSequence("CN=resign")
+	content := config.CertificateContent{Alias: "resign", Subject: subj, SerialNumber: 5,
+		Validity: config.CertificateValidity{From: fixedTime(2020), Until: fixedTime(2030), IsStatic: true, IsSet: true}}
+	ctx, err := generator.BuildCertBody(content, pf.PrivateKey, nil)
+	if err != nil {
+		x.Violation("C05/resign/build-failed", err.Error())
+		return
+	}
+	x.Nontrivial(fmt.Sprintf("resign %s %s %s", c.KeyAlg, c.SigAlg, c.Second))
+	for step, name := range []string{c.SigAlg, c.Second} {
+		for i, n := range refx509.SigAlgNames {
+			if n == name {
+				content.SignatureAlgorithm = cert.SignatureAlgorithm(i)
+			}
+		}
+		crt, err := generator.SignCertBody(ctx, content)
+		fits := refx509.SigFamily(refx509.SigAlgByName[name]) == c05Family(c.KeyAlg)
+		if !fits {
+			if err == nil {
+				x.Violation("C05/resign/mismatched-algorithm-accepted", fmt.Sprintf("key %s signed with %s", c.KeyAlg, name))
+			}
+			continue
+		}
+		if err != nil || crt == nil {
+			x.Violation(fmt.Sprintf("C05/resign/sign-failed step=%d", step+1), fmt.Sprintf("key %s, %s after %s: %v", c.KeyAlg, name, c.SigAlg, err))
+			return
+		}
+		der, err := asn1.Marshal(*crt)
+		if err != nil {
+			x.Violation("C05/resign/unencodable", err.Error())
+			return
+		}
+		cc, err := refx509.ParseCert(der)
+		if err != nil {
+			x.Violation("C05/resign/undecodable", err.Error())
+			return
+		}
+		want := refx509.SigAlgByName[name]
+		if cc.OuterSig.OID != want || cc.InnerSig.OID != want || !bytes.Equal(cc.OuterSig.Raw, cc.InnerSig.Raw) {
+			x.Violation(fmt.Sprintf("C05/resign/identifier step=%d", step+1), fmt.Sprintf("key %s: signing #%d asked for %s (%s) after %s; the certificate has tbsCertificate.signature %s (%x) and signatureAlgorithm %s (%x)", c.KeyAlg, step+1, name, want, c.SigAlg, cc.InnerSig.OID, cc.InnerSig.Raw, cc.OuterSig.OID, cc.OuterSig.Raw))
+		}
+		if err := cc.VerifyUnder(cc); err != nil {
+			x.Violation(fmt.Sprintf("C05/resign/does-not-verify step=%d", step+1), fmt.Sprintf("key %s, %s after %s: %v", c.KeyAlg, name, c.SigAlg, err))
+		}
+	}
+	x.Outcome("resigned")
+}
+
 func c05Exec(x *engine.Ctx, cc any) {
 	c := cc.(*c05Case)
+	if c.Role == "resign" {
+		c05Resign(x, c)
+		return
+	}
 	d := &Dir{}
 	ent := &refcfg.CertCfg{Path: "ent.yaml", Subject: "CN=ent", KeyAlg: c.KeyAlg, SigAlg: c.SigAlg}
 	signerFam := c05Family(c.KeyAlg)
@@ -149,7 +228,7 @@ func init() {
 	register(&engine.Check{
 		ID:          "C05",
 		Level:       "exploration",
-		Rule:        "15 keyAlgorithm values (14 names + omitted) x 9 signatureAlgorithm values (8 + omitted) for self-signed roots and for subordinates under an issuer of each of the 14 key types (issuer key from fixtures); gopki generates the entity's key except for the slow RSA sizes where a fixture key is imported (RSA-4096 generated once per role in quick, RSA-8192 only in thorough). Oracle: PKCS#8 block decodes to exactly that modulus length / curve, SPKI names it and carries the private key's public key, signature algorithm OID = configured or SHA-256 with the entity's own key family. non-trivial = distinct fitting combination that produced a certificate",
+		Rule:        "15 keyAlgorithm values (14 names + omitted) x 9 signatureAlgorithm values (8 + omitted) for self-signed roots and for subordinates under an issuer of each of the 14 key types (issuer key from fixtures); gopki generates the entity's key except for the slow RSA sizes where a fixture key is imported (RSA-4096 generated once per role in quick, RSA-8192 only in thorough). Oracle: PKCS#8 block decodes to exactly that modulus length / curve, SPKI names it and carries the private key's public key, signature algorithm OID = configured or SHA-256 with the entity's own key family. non-trivial = distinct fitting combination that produced a certificate; through the generator API one certificate body signed twice (every ordered pair of the 8 signature algorithms on a P-256, a brainpoolP384r1 and an RSA-2048 key, a first attempt with an algorithm of the other family failing): every certificate names, inside and outside, the algorithm it was asked for and verifies",
 		Bound:       map[string]string{"grid": "15 x 9 x (1 + 14 issuers)"},
 		Assumptions: []string{"combinations whose signature algorithm does not fit the signing key must fail (C01) and are only counted here"},
 		Budget:      budgets(quickBudget, thoroughBudget),
